@@ -41,6 +41,57 @@ var divAllow = map[string]string{
 
 func c04() []*Ob {
 	return []*Ob{
+		{Prop: "C04", ID: "C04.11", Engine: "PAIR(parallel arrays)", Floor: 1,
+			Desc: "the i-th group of ids is fetched from the i-th fraction: groupIDsByFraction extends its two results together — wherever a group is appended to the id groups, the fraction it belongs to is written into the fraction list in the same step (same basic block) — otherwise a candidate fraction that received no ids shifts every later group onto the wrong fraction, and stored documents come back as not found",
+			Check: func(c *Ctx) {
+				fn := c.Fn("fracmanager.groupIDsByFraction")
+				if fn == nil {
+					return
+				}
+				isGroups := func(t types.Type) bool {
+					sl, ok := t.Underlying().(*types.Slice)
+					if !ok {
+						return false
+					}
+					in, ok := sl.Elem().Underlying().(*types.Slice)
+					return ok && strings.HasSuffix(TypeStr(in.Elem()), "seq.ID")
+				}
+				isFracs := func(t types.Type) bool {
+					sl, ok := t.Underlying().(*types.Slice)
+					return ok && strings.HasSuffix(TypeStr(sl.Elem()), "frac.Fraction")
+				}
+				n := 0
+				for _, b := range fn.Blocks {
+					for _, in := range b.Instrs {
+						cl, ok := in.(*ssa.Call)
+						if !ok || CallName(cl) != "builtin.append" || !isGroups(cl.Type()) {
+							continue
+						}
+						n++
+						paired := false
+						for _, in2 := range b.Instrs {
+							switch x := in2.(type) {
+							case *ssa.Store:
+								if ia, ok := x.Addr.(*ssa.IndexAddr); ok && isFracs(ia.X.Type()) {
+									paired = true
+								}
+							case *ssa.Call:
+								if CallName(x) == "builtin.append" && isFracs(x.Type()) {
+									paired = true
+								}
+							}
+						}
+						if paired {
+							c.Site(cl.Pos(), "a group of ids and its fraction are recorded together")
+						} else {
+							c.Violation("pair:groupIDsByFraction:parallel", cl.Pos(), "groupIDsByFraction appends a group of ids without recording its fraction in the same step: the two results are no longer parallel, and later groups are looked up in the wrong fraction")
+						}
+					}
+				}
+				if n == 0 {
+					c.Undecided("pair:groupIDsByFraction:noappend", fn.Pos(), "groupIDsByFraction no longer appends to its id groups")
+				}
+			}},
 		{Prop: "C04", ID: "C04.10", Engine: "SIBLING+ORDER+DOM", Floor: 2,
 			Desc:  "a stored document is not pruned away before it is looked for: a sealed fraction is asked for an id only if its occupancy map (Info.Distribution) intersects the id's time, so the map has a bit for every document — BuildDistribution adds every id, on every iteration, and Add and IsIntersecting map timestamps with the same function (shared rule with C14.4); an id whose bucket was never set is dropped before groupIDsByFraction and Fetch answers with an empty entry for a document that is there",
 			Check: func(c *Ctx) { occupancyMapComplete(c) }},
